@@ -49,6 +49,8 @@ KINDS = {
                          copy=lambda dest, o, keep, name, children=True: dest.copy_section(o, children=children, keep_id=keep, name=name or "")),
     "section-nested": dict(src=lambda f: f.sections["sec"].sections["sec"], cont="sections", parent_kind="section-or-file",
                            copy=lambda dest, o, keep, name, children=True: dest.copy_section(o, children=children, keep_id=keep, name=name or "")),
+    "section-bare-parent": dict(src=lambda f: f.sections["bare"].sections["kid"], cont="sections", parent_kind="section-or-file",
+                                copy=lambda dest, o, keep, name, children=True: dest.copy_section(o, children=children, keep_id=keep, name=name or "")),
     "property": dict(src=lambda f: f.sections["sec"].props["pstr"], cont="props", parent_kind="section",
                      copy=lambda dest, o, keep, name: dest.create_property(name=name or "", copy_from=o, keep_copy_id=keep)),
 }
@@ -218,6 +220,10 @@ def run_case(case):
             src.create_section("leaf", "sectype").create_property("p2", ["x"])
         else:
             seeds.build_rich(f)
+            if kind == "section-bare-parent":
+                kid = f.create_section("bare", "sectype").create_section("kid", "sectype")      # the parent has no properties
+                kid.create_property("kp", [2.5])
+                kid.create_section("leaf", "sectype").create_property("lp", ["x"])
             src = K["src"](f)
         srcname = src.name
         # ---- destination parent
@@ -256,7 +262,7 @@ def run_case(case):
                     dest.create_property("taken", [1])
         else:   # section-or-file
             if destk == "same-parent":
-                dest = f if kind == "section-root" else f.sections["sec"]
+                dest = f if kind == "section-root" else (f.sections["bare"] if kind == "section-bare-parent" else f.sections["sec"])
             elif destk == "other-parent":
                 dest = f.create_section("dest", "t")
             else:
